@@ -6,6 +6,7 @@ import E57.Drv.Spec
 import E57.Drv.Enc
 import E57.Drv.Tools
 import E57.Drv.SFloat
+import E57.Drv.DevIO
 open E57 E57.Drv
 
 def dispatch (engine : String) (toks : List String) : String :=
@@ -23,6 +24,7 @@ def dispatch (engine : String) (toks : List String) : String :=
   | "tools" => toolsLine toks
   | "copy" => writerLine toks
   | "sfloat" => sfloatLine toks
+  | "devio" => devioLine toks
   | _ => "BADENGINE"
 
 partial def loop (engine : String) (h : IO.FS.Stream) (out : IO.FS.Stream) : IO Unit := do
